@@ -93,13 +93,20 @@ func (x *Executor) judgeC12(run *c12Run, obs *Observation) c12Outcome {
 					found = true
 				}
 			}
-			if !found || len(obs.Files[g]) == 0 || strings.Contains(obs.FileSha[g], "differs") {
+			content, present := obs.Disk[g]
+			if run.Pre != nil {
+				// over earlier output a generator may leave a file whose bytes
+				// are already right alone; staleness is judged against a fresh
+				// directory by the caller
+				found = present
+			}
+			if !found || !present || len(content) == 0 || strings.Contains(obs.FileSha[g], "differs") {
 				missing = append(missing, g)
 				continue
 			}
 			// complete = a whole Go file (a torn or overwritten-in-place file
 			// with a stale tail is not)
-			if _, err := goparser.ParseFile(gotoken.NewFileSet(), g, obs.Files[g], goparser.AllErrors); err != nil {
+			if _, err := goparser.ParseFile(gotoken.NewFileSet(), g, content, goparser.AllErrors); err != nil {
 				missing = append(missing, g+" (not a complete Go file: "+firstLine(err.Error())+")")
 			}
 		}
@@ -372,7 +379,36 @@ func (st *c12State) execOne(run *c12Run) (c12Outcome, error) {
 	if err != nil {
 		return c12Outcome{}, err
 	}
-	return st.x.judgeC12(run, obs), nil
+	out := st.x.judgeC12(run, obs)
+	if run.Pre != nil && out.Class == "ok" {
+		// The directory held the output of an earlier generation. Exit 0 is only
+		// right if a fresh directory with the same sources also succeeds and
+		// the generated files now on disk are that output: anything else is
+		// "exit 0 with missing or partial (stale) output".
+		fresh := filepath.Join(base, "fresh")
+		if err := Materialise(fresh, run.Files, true); err != nil {
+			return c12Outcome{}, Infra("%v", err)
+		}
+		ref, err := st.x.RunGen(fresh, Op{Kind: "Gen", Binary: "plain", Cwd: "dot"}, "c12ref")
+		if err != nil {
+			return c12Outcome{}, err
+		}
+		if ref.ExitClass != "ok" {
+			out.Class = "exit0-where-fresh-directory-fails"
+			out.Sig = core.Signature{"class": "exit0-where-fresh-directory-fails", "after": faultKey(run)}
+			out.Detail = fmt.Sprintf("lox exited 0 over the output of an earlier generation, but the same sources in a fresh directory fail:\n%s", tail([]byte(ref.Stderr), 600))
+			return out, nil
+		}
+		for _, g := range GenFiles {
+			if obs.Disk[g] != ref.Disk[g] {
+				out.Class = "exit0-stale-output"
+				out.Sig = core.Signature{"class": "exit0-stale-output", "file": g, "after": faultKey(run)}
+				out.Detail = fmt.Sprintf("lox exited 0 but %s is not what the same sources generate in a fresh directory\n%s", g, firstDiff([]byte(ref.Disk[g]), []byte(obs.Disk[g])))
+				return out, nil
+			}
+		}
+	}
+	return out, nil
 }
 
 func (st *c12State) record(run *c12Run, out c12Outcome) {
